@@ -16,10 +16,10 @@ EXPLANATION = (
     "salted add, the inserted envelope is add_salt(assertion) iff salted, else the assertion; the duplicate test and the validity test of "
     "C04.3/C04.4 apply to the very element inserted (so a salted add is not suppressed by an equal unsalted assertion). C17.6: a salted assertion is still found by its predicate - the C15.5 lookup rules (filter on subject(a)) re-evaluated here. C17.7: add_assertions_salted is the unconditional left fold of add_assertion_envelope_salted(acc, a, salted) over every listed assertion. Does not decide the "
     "documented length range / >= 8 refusal (inside bc_components::Salt) nor distinctness across invocations (randomness)."
-    " C17.8: add_assertion_envelope_salted = add_optional_assertion_envelope_salted(self, Some(a), salted).")
+    " C17.8: add_assertion_envelope_salted = add_optional_assertion_envelope_salted(self, Some(a), salted), and add_assertion_salted is a salted adder over (self, new_assertion(predicate, object), salted).")
 TRUSTED = ['Salt::new_for_size_using / new_with_len_using / new_in_range_using implement the documented length rules',
            'SecureRandomNumberGenerator is the OS CSPRNG']
-FLOORS = {'C17.1': 1, 'C17.2': 1, 'C17.3': 3, 'C17.4': 6, 'C17.5': 2, 'C17.6': 4, 'C17.7': 1, 'C17.8': 1}
+FLOORS = {'C17.1': 1, 'C17.2': 1, 'C17.3': 3, 'C17.4': 6, 'C17.5': 2, 'C17.6': 4, 'C17.7': 1, 'C17.8': 2}
 P1, P2, P3 = ('param', 1), ('param', 2), ('param', 3)
 
 
@@ -260,3 +260,24 @@ def check(ctx):
             ctx.ok('C17.8', ctx.site(b), 'add_assertion_envelope_salted = add_optional_assertion_envelope_salted(self, Some(assertion), salted)')
         else:
             ctx.fail('C17.8', ctx.site(b), 'add_assertion_envelope_salted is %s, not the core salted adder over (self, Some(assertion), salted)' % fmt(rt)[:200], key='C17.8|delegation')
+    # ... and so does the generic form: add_assertion_salted(p, o, salted) = <a salted adder>(self, [Some] new_assertion(p, o), salted),
+    # unwrapped - it has no salt sizing of its own
+    b = F.method1('Envelope', 'add_assertion_salted')
+    if b is None:
+        ctx.lost('C17.8', 'Envelope::add_assertion_salted')
+    else:
+        rt = strip_sites(detry(TermBuilder(F, b).return_term()))
+        u = m_call(rt, name='unwrap') or m_call(rt, name='expect')
+        rt2 = strip_sites(detry(u[0])) if u else rt
+        a = m_call(rt2, name='add_optional_assertion_envelope_salted', self_suffix='Envelope') or m_call(rt2, name='add_assertion_envelope_salted', self_suffix='Envelope')
+        good = False
+        if a is not None and strip_sites(a[0]) == P1 and strip_sites(a[2]) == ('param', 4):
+            x = strip_sites(a[1])
+            if x[0] == 'agg' and x[2] == 'Some':
+                x = strip_sites(x[3][0])
+            na = m_call(x, name='new_assertion')
+            good = na is not None and contains(na[0], lambda y: y == P2) and contains(na[1], lambda y: y == P3)
+        if good:
+            ctx.ok('C17.8', ctx.site(b), 'add_assertion_salted = salted adder(self, new_assertion(predicate, object), salted)')
+        else:
+            ctx.fail('C17.8', ctx.site(b), 'add_assertion_salted is %s, not a salted adder over (self, new_assertion(predicate, object), salted)' % fmt(rt)[:220], key='C17.8|generic')
